@@ -195,6 +195,16 @@ func VerifC03_RestartGenerations() {
 	m := fakes.NewMetrics()
 	buf := newBufferer(logger.Root(), "/root", "id1", verifMatchFF, m, 1<<30, false).(*bufferer)
 	buf.Start()
+	// the recovered chunks (the first three in id order) count against the size limit from the start
+	recoveredBytes, recoveredFiles := 0, 0
+	for i := 0; i < 4; i++ {
+		if present[i] && recoveredFiles < 3 {
+			recoveredBytes += len(datas[i])
+			recoveredFiles++
+		}
+	}
+	sym.Assert(int(m.GaugeValue("persistent_chunk_bytes", "hybridBuffer")) == recoveredBytes, "the byte gauge equals the recovered files")
+	sym.Assert(int(m.GaugeValue("persistent_chunks", "hybridBuffer")) == recoveredFiles, "the file gauge equals the recovered files")
 	cons := &verifConsumer{args: buf.RegisterNewConsumer()}
 	newData := sym.BigBytes("newData", 1, 100)
 	buf.Accept(base.LogChunk{ID: verifIDs[4], Data: append([]byte{}, newData...)})
@@ -303,6 +313,54 @@ func VerifC03_QueueOverflowKeepsLimit() {
 	if dropped > 0 {
 		sym.Reach("overflowed")
 	}
+	sym.Reach("done")
+}
+
+// VerifC03_LimitAcrossRestart: the size limit holds across generations: a
+// directory left by a previous run (one or two chunk files of symbolic size),
+// a symbolic limit, a stalled consumer and a memory window of 1: every chunk
+// accepted after the restart is spilled only while recovered + new files stay
+// within the limit (a directory that already exceeds a lowered limit does not grow).
+//
+//verif:native off
+//verif:solver cvc5-int
+//verif:preempt 0
+//verif:reach refused spilled done
+func VerifC03_LimitAcrossRestart() {
+	defer verifScale()()
+	defs.BufferMaxNumChunksInQueue, defs.BufferMaxNumChunksInMemory = 4, 1
+	fs := fsmodel.Reset()
+	fs.Files[".id"] = []byte("id1")
+	n := 1 + sym.Choice("oldFiles", 2)
+	old := 0
+	for i := 0; i < n; i++ {
+		d := sym.BigBytes("old", 1, 100)
+		fs.Files[verifIDs[i]] = append([]byte{}, d...)
+		old += len(d)
+	}
+	m := fakes.NewMetrics()
+	limit := sym.IntRange("diskLimit", 0, 400)
+	buf := newBufferer(logger.Root(), "/root", "id1", verifMatchFF, m, int64(limit), false).(*bufferer)
+	buf.Start()
+	buf.RegisterNewConsumer() // never reads: stalled
+	bound := limit
+	if old > bound {
+		bound = old
+	}
+	for i := n; i < n+3; i++ {
+		data := sym.BigBytes("data", 1, 100)
+		before := verifDiskBytes(fs)
+		buf.Accept(base.LogChunk{ID: verifIDs[i], Data: append([]byte{}, data...)}) // must never block
+		sym.Assert(verifDiskBytes(fs) <= bound, "queue files stay within the size limit across a restart")
+		if verifDiskBytes(fs) > before {
+			sym.Reach("spilled")
+		}
+		sym.Yield()
+	}
+	if int(m.CounterValue("dropped_chunks_total", "hybridBuffer")) > 0 {
+		sym.Reach("refused")
+	}
+	sym.Assert(int(m.GaugeValue("persistent_chunk_bytes", "hybridBuffer")) >= verifDiskBytes(fs), "the byte gauge covers every file in the directory")
 	sym.Reach("done")
 }
 
